@@ -117,7 +117,22 @@ def run(rep):
             hd = E.holes(wt)
             wm = _re.search(r'pub const #(\w+) : \[ u32 ; 3 \] = \[ #(\w+) , #(\w+) , #(\w+) \] ;', wtxt)
             if not wm:
-                rep.bad('C14.compute', 'workgroup-size', where, f'the workgroup-size constant is not `pub const <NAME>: [u32; 3] = [x, y, z];` ({wtxt[:160]})')
+                # the three components as one repetition over the entry's workgroup_size (`[#(#size),*]`): all elements, in order, each printed
+                # as an unsuffixed literal of the element itself
+                reps = [it for it in wt[2] if it[0] == 'rep']
+                rm = _re.search(r'pub const #(\w+) : \[ u32 ; 3 \] = \[ #\(', wtxt)
+                okr = False
+                if rm and len(reps) == 1 and reps[0][2].strip() == ',' and len(reps[0][1]) == 1 and reps[0][1][0][0] == 'hole':
+                    st_ = reps[0][1][0][2]
+                    okr = st_[0] == 'star' and st_[1] == ('f', ent, 'workgroup_size') and not st_[4] and not st_[5] and st_[3][0] == 'call' and \
+                        st_[3][1].startswith('Literal::') and st_[3][1].endswith('unsuffixed') and strip_cast(st_[3][2][0]) == ('elem', st_[2], st_[1])
+                    nm = hd.get(rm.group(1))
+                    okn = nm is not None and nm[0] == 'call' and nm[1] == 'Ident::new' and nm[2][0][0] == 'fmt' and nm[2][0][1] == '{}_WORKGROUP_SIZE' and \
+                        nm[2][0][2] == [('mcall', ('f', ent, 'name'), 'to_uppercase', [])]
+                    rep.check(okn, 'C14.compute', 'workgroup-const-name', where, f'the workgroup constant is named {E.show(nm, maxdepth=6) if nm else None}', ok_detail='<NAME>_WORKGROUP_SIZE')
+                rep.check(okr, 'C14.compute', 'workgroup-size', where,
+                          f'the workgroup-size constant is not `pub const <NAME>: [u32; 3] = [x, y, z];` with the components of this entry\'s workgroup_size ({wtxt[:160]})',
+                          ok_detail='[#(workgroup_size[i]),*] in order')
                 continue
             nm = hd[wm.group(1)]
             okn = nm[0] == 'call' and nm[1] == 'Ident::new' and nm[2][0][0] == 'fmt' and nm[2][0][1] == '{}_WORKGROUP_SIZE' and nm[2][0][2] == [('mcall', ('f', ent, 'name'), 'to_uppercase', [])]
